@@ -452,12 +452,48 @@ pub fn shrink(s: &dyn Scenario, case: &Value, rule: &str, budget: usize, keep: &
     if std::env::var("VERIF_DEBUG").is_ok() {
       eprintln!("shrink candidate: {}", cand);
     }
+    let size = |v: &Value| v.to_string().len();
     if let Ok(o) = run_guarded(s, &cand) {
       if let Some(v) = o.violation {
         if v.rule == rule && keep(&v) {
-          *best = o.resolved.unwrap_or(cand);
-          *best_v = v;
-          return true;
+          // the resolved form spells out every decision taken and may be longer than
+          // the candidate that reproduced: only ever move to something smaller
+          let next = match o.resolved {
+            Some(r) if size(&r) < size(best) && size(&r) <= size(&cand) => r,
+            _ => cand.clone(),
+          };
+          if size(&next) < size(best) {
+            *best = next;
+            *best_v = v;
+            return true;
+          }
+          return false;
+        }
+      }
+    }
+    // thread-mode cases carry an explicit decision list; once an operation has
+    // been removed the list no longer lines up with the run, so the smaller
+    // case is also tried under a few fresh seeded schedules (the schedule that
+    // fails is stored as its new explicit list)
+    if cand.get("sched").and_then(|x| x.get("Explicit")).is_some() {
+      for k in 0..6u64 {
+        if *used >= budget {
+          break;
+        }
+        *used += 1;
+        let mut c2 = cand.clone();
+        c2["sched"] = json!({"Seeded": {"seed": 0x9e3779b97f4a7c15u64.wrapping_mul(*used as u64 + k + 1), "strategy": if k % 2 == 0 { json!("Random") } else { json!({"Pct": {"d": 2, "k": 30}}) }}});
+        if let Ok(o) = run_guarded(s, &c2) {
+          if let Some(v) = o.violation {
+            if v.rule == rule && keep(&v) {
+              let next = o.resolved.unwrap_or(c2);
+              if size(&next) < size(best) {
+                *best = next;
+                *best_v = v;
+                return true;
+              }
+            }
+          }
         }
       }
     }
@@ -713,7 +749,7 @@ pub fn run_check(pc: &PropertyCheck, tier: Tier, verif_dir: &str) -> i32 {
         continue;
       }
       shrunk += 1;
-      let budget = if tier == Tier::Quick { 250 } else { 400 };
+      let budget = if tier == Tier::Quick { 800 } else { 1500 };
       // a candidate must stay on the same side of the known/unknown line, so that
       // minimisation can never turn a new violation into a listed one
       let orig_known = match_known(&known, pc.id, s.name(), &r.violation).is_some();
